@@ -1106,7 +1106,10 @@ def run(ctx, drv):
                 "or relative out-of-tree `directory`; sometimes the only commands of a platform), loaded through config.load_database; "
                 "30% with free-form Fortran sources including a header that hides a #define inside /* */) x 1-3 platforms x exclude "
                 "lists matching subsets of the source files (every non-empty subset when <= 5 files, else singletons + random subsets), "
-                "each subset spelled with /path, path, basename, *.ext and dir/ patterns. Every (case, exclude list) is one evaluation: "
+                "each subset spelled with /path, path, basename, *.ext and dir/ patterns; in 60% of the cases a nested directory that shares the name "
+                "of a top-level one, with the anchored (/T/) and unanchored (T/) directory lists; outside headers without a recognised extension "
+                "(O0Core, o0.def, o0.tpp). Every include look-up the real code makes is audited against the files on disk. "
+                "Every (case, exclude list) is one evaluation: "
                 "analysis without and with the exclusion, compared. Non-trivial = distinct (code base, excluded set) in which blanking "
                 "the excluded/outside files changes the attribution of a remaining file, i.e. their macros are really needed, "
                 "or (key 'outside-tu') a code base in which dropping the commands of the out-of-tree translation units changes the "
